@@ -14,6 +14,8 @@ HARNESS = os.environ.get("VERIF_HARNESS_DIR", os.path.join(VERIF, "harness"))
 EVID = os.path.join(VERIF, "evidence")
 WORK = os.path.join(VERIF, "work")          # scratch (git-ignored), never /tmp
 VH = os.path.join(HARNESS, "target", "verif", "vh")
+# (development only: bin/coverage runs the checks with a coverage-instrumented build of the harness)
+VH_OVERRIDE = os.environ.get("VERIF_VH_BIN")
 TLA_JAR = "/opt/veriftools/tla/tla2tools.jar"
 CM_JAR = None
 
@@ -57,7 +59,10 @@ _built = False
 
 def build_harness():
     """Rebuild the harness against /repo's current working tree (hooks on)."""
-    global _built
+    global _built, VH
+    if VH_OVERRIDE:
+        VH = VH_OVERRIDE
+        _built = True
     if _built:
         return VH
     env = {"CARGO_NET_OFFLINE": "true", "RUSTC_WRAPPER": "", "CARGO_TERM_COLOR": "never"}
